@@ -87,6 +87,12 @@ SPIF_TYPE(strclass) SPIF_STRCLASS_VAR(ustr) = &s_class;
 
 const size_t buff_inc = 4096;
 
+/* Text of a string for read-only use.  A string which has never been
+   filled (or has been done) has no buffer; its text is the empty string. */
+#define USTR_TEXT(obj)  ((const char *) ((SPIF_USTR_ISNULL(obj) || (SPIF_USTR(obj)->s == (spif_charptr_t) NULL)) \
+                                        ? ((spif_charptr_t) "") \
+                                        : (SPIF_USTR(obj)->s)))
+
 spif_ustr_t
 spif_ustr_new(void)
 {
@@ -418,7 +424,7 @@ spif_ustr_casecmp(spif_ustr_t self, spif_ustr_t other)
     int c;
 
     SPIF_OBJ_COMP_CHECK_NULL(self, other);
-    c = strcasecmp((char *) SPIF_USTR_STR(self), (char *) SPIF_USTR_STR(other));
+    c = strcasecmp(USTR_TEXT(self), USTR_TEXT(other));
     return SPIF_CMP_FROM_INT(c);
 }
 
@@ -428,7 +434,7 @@ spif_ustr_casecmp_with_ptr(spif_ustr_t self, spif_charptr_t other)
     int c;
 
     SPIF_OBJ_COMP_CHECK_NULL(self, other);
-    c = strcasecmp((char *) SPIF_USTR_STR(self), (char *) other);
+    c = strcasecmp(USTR_TEXT(self), (char *) other);
     return SPIF_CMP_FROM_INT(c);
 }
 
@@ -447,7 +453,7 @@ spif_ustr_cmp(spif_ustr_t self, spif_ustr_t other)
     int c;
 
     SPIF_OBJ_COMP_CHECK_NULL(self, other);
-    c = strcmp((char *) SPIF_USTR_STR(self), (char *) SPIF_USTR_STR(other));
+    c = strcmp(USTR_TEXT(self), USTR_TEXT(other));
     return SPIF_CMP_FROM_INT(c);
 }
 
@@ -457,7 +463,7 @@ spif_ustr_cmp_with_ptr(spif_ustr_t self, spif_charptr_t other)
     int c;
 
     SPIF_OBJ_COMP_CHECK_NULL(self, other);
-    c = strcmp((char *) SPIF_USTR_STR(self), (char *) other);
+    c = strcmp(USTR_TEXT(self), (char *) other);
     return SPIF_CMP_FROM_INT(c);
 }
 
@@ -477,13 +483,15 @@ spif_ustridx_t
 spif_ustr_find(spif_ustr_t self, spif_ustr_t other)
 {
     char *tmp;
+    const char *text;
 
     ASSERT_RVAL(!SPIF_USTR_ISNULL(self), ((spif_stridx_t) -1));
     REQUIRE_RVAL(!SPIF_USTR_ISNULL(other), ((spif_stridx_t) -1));
-    tmp = strstr((const char *) SPIF_USTR_STR(self),
-                 (const char *) SPIF_USTR_STR(other));
+    text = USTR_TEXT(self);
+    tmp = strstr(text,
+                 USTR_TEXT(other));
     if (tmp) {
-        return (spif_stridx_t) ((spif_long_t) tmp - (spif_long_t) (SPIF_USTR_STR(self)));
+        return (spif_stridx_t) ((spif_long_t) tmp - (spif_long_t) text);
     } else {
         return (spif_stridx_t) (self->len);
     }
@@ -493,13 +501,15 @@ spif_ustridx_t
 spif_ustr_find_from_ptr(spif_ustr_t self, spif_charptr_t other)
 {
     char *tmp;
+    const char *text;
 
     ASSERT_RVAL(!SPIF_USTR_ISNULL(self), ((spif_stridx_t) -1));
     REQUIRE_RVAL((other != (spif_charptr_t) NULL), ((spif_stridx_t) -1));
-    tmp = strstr((const char *) SPIF_USTR_STR(self),
+    text = USTR_TEXT(self);
+    tmp = strstr(text,
                  (const char *) other);
     if (tmp) {
-        return (spif_stridx_t) ((spif_long_t) tmp - (spif_long_t) (SPIF_USTR_STR(self)));
+        return (spif_stridx_t) ((spif_long_t) tmp - (spif_long_t) text);
     } else {
         return (spif_stridx_t) (self->len);
     }
@@ -509,11 +519,13 @@ spif_ustridx_t
 spif_ustr_index(spif_ustr_t self, spif_char_t c)
 {
     char *tmp;
+    const char *text;
 
     ASSERT_RVAL(!SPIF_USTR_ISNULL(self), ((spif_stridx_t) -1));
-    tmp = index((const char *) SPIF_USTR_STR(self), c);
+    text = USTR_TEXT(self);
+    tmp = index(text, c);
     if (tmp) {
-        return (spif_stridx_t) ((spif_long_t) tmp - (spif_long_t) (SPIF_USTR_STR(self)));
+        return (spif_stridx_t) ((spif_long_t) tmp - (spif_long_t) text);
     } else {
         return (spif_stridx_t) (self->len);
     }
@@ -525,7 +537,7 @@ spif_ustr_ncasecmp(spif_ustr_t self, spif_ustr_t other, spif_ustridx_t cnt)
     int c;
 
     SPIF_OBJ_COMP_CHECK_NULL(self, other);
-    c = strncasecmp((char *) SPIF_USTR_STR(self), (char *) SPIF_USTR_STR(other), cnt);
+    c = strncasecmp(USTR_TEXT(self), USTR_TEXT(other), cnt);
     return SPIF_CMP_FROM_INT(c);
 }
 
@@ -535,7 +547,7 @@ spif_ustr_ncasecmp_with_ptr(spif_ustr_t self, spif_charptr_t other, spif_ustridx
     int c;
 
     SPIF_OBJ_COMP_CHECK_NULL(self, other);
-    c = strncasecmp((char *) SPIF_USTR_STR(self), (char *) other, cnt);
+    c = strncasecmp(USTR_TEXT(self), (char *) other, cnt);
     return SPIF_CMP_FROM_INT(c);
 }
 
@@ -545,7 +557,7 @@ spif_ustr_ncmp(spif_ustr_t self, spif_ustr_t other, spif_ustridx_t cnt)
     int c;
 
     SPIF_OBJ_COMP_CHECK_NULL(self, other);
-    c = strncmp((char *) SPIF_USTR_STR(self), (char *) SPIF_USTR_STR(other), cnt);
+    c = strncmp(USTR_TEXT(self), USTR_TEXT(other), cnt);
     return SPIF_CMP_FROM_INT(c);
 }
 
@@ -555,7 +567,7 @@ spif_ustr_ncmp_with_ptr(spif_ustr_t self, spif_charptr_t other, spif_ustridx_t c
     int c;
 
     SPIF_OBJ_COMP_CHECK_NULL(self, other);
-    c = strncmp((char *) SPIF_USTR_STR(self), (char *) other, cnt);
+    c = strncmp(USTR_TEXT(self), (char *) other, cnt);
     return SPIF_CMP_FROM_INT(c);
 }
 
@@ -617,11 +629,13 @@ spif_ustridx_t
 spif_ustr_rindex(spif_ustr_t self, spif_char_t c)
 {
     char *tmp;
+    const char *text;
 
     ASSERT_RVAL(!SPIF_USTR_ISNULL(self), ((spif_stridx_t) -1));
-    tmp = rindex((const char *) SPIF_USTR_STR(self), c);
+    text = USTR_TEXT(self);
+    tmp = rindex(text, c);
     if (tmp) {
-        return (spif_stridx_t) ((spif_long_t) tmp - (spif_long_t) (SPIF_USTR_STR(self)));
+        return (spif_stridx_t) ((spif_long_t) tmp - (spif_long_t) text);
     } else {
         return (spif_stridx_t) (self->len);
     }
@@ -790,14 +804,14 @@ double
 spif_ustr_to_float(spif_ustr_t self)
 {
     ASSERT_RVAL(!SPIF_USTR_ISNULL(self), (double) NAN);
-    return (double) (strtod((const char *)SPIF_USTR_STR(self), (char **) NULL));
+    return (double) (strtod(USTR_TEXT(self), (char **) NULL));
 }
 
 size_t
 spif_ustr_to_num(spif_ustr_t self, int base)
 {
     ASSERT_RVAL(!SPIF_USTR_ISNULL(self), ((size_t) -1));
-    return (size_t) (strtoul((const char *) SPIF_USTR_STR(self), (char **) NULL, base));
+    return (size_t) (strtoul(USTR_TEXT(self), (char **) NULL, base));
 }
 
 spif_bool_t
